@@ -185,7 +185,8 @@ template <typename NumericType>
 inline constexpr void Conversion<Unit::MassDensity, Unit::MassDensity::SlugPerCubicFoot>::
     ToStandard(NumericType& value) noexcept {
   value *= static_cast<NumericType>(0.45359237L) * static_cast<NumericType>(9.80665L)
-           / std::pow(static_cast<NumericType>(0.3048L), 4);
+           / (static_cast<NumericType>(0.3048L) * static_cast<NumericType>(0.3048L)
+              * static_cast<NumericType>(0.3048L) * static_cast<NumericType>(0.3048L));
 }
 
 template <>
@@ -202,7 +203,8 @@ template <typename NumericType>
 inline constexpr void Conversion<Unit::MassDensity, Unit::MassDensity::SlinchPerCubicInch>::
     ToStandard(NumericType& value) noexcept {
   value *= static_cast<NumericType>(0.45359237L) * static_cast<NumericType>(9.80665L)
-           / std::pow(static_cast<NumericType>(0.0254L), 4);
+           / (static_cast<NumericType>(0.0254L) * static_cast<NumericType>(0.0254L)
+              * static_cast<NumericType>(0.0254L) * static_cast<NumericType>(0.0254L));
 }
 
 template <>
@@ -217,7 +219,9 @@ template <>
 template <typename NumericType>
 inline constexpr void Conversion<Unit::MassDensity, Unit::MassDensity::PoundPerCubicFoot>::
     ToStandard(NumericType& value) noexcept {
-  value *= static_cast<NumericType>(0.45359237L) / std::pow(static_cast<NumericType>(0.3048L), 3);
+  value *= static_cast<NumericType>(0.45359237L)
+           / (static_cast<NumericType>(0.3048L) * static_cast<NumericType>(0.3048L)
+              * static_cast<NumericType>(0.3048L));
 }
 
 template <>
@@ -232,7 +236,9 @@ template <>
 template <typename NumericType>
 inline constexpr void Conversion<Unit::MassDensity, Unit::MassDensity::PoundPerCubicInch>::
     ToStandard(NumericType& value) noexcept {
-  value *= static_cast<NumericType>(0.45359237L) / std::pow(static_cast<NumericType>(0.0254L), 3);
+  value *= static_cast<NumericType>(0.45359237L)
+           / (static_cast<NumericType>(0.0254L) * static_cast<NumericType>(0.0254L)
+              * static_cast<NumericType>(0.0254L));
 }
 
 template <typename NumericType>
